@@ -8,7 +8,7 @@
    np.where behaviour of the code at /repo HEAD, [complements_fixed]/[where_fixed] the proposed repairs
    (notes/C14.fix-1.diff, notes/C14.fix-2.diff), [complements_pinned]/[where_pinned] the unrepaired code. *)
 From Coq Require Import ZArith List Bool String.
-From BNP Require Import Base.Prims Model.C14 Proofs.C14 Gen.C14 Bridge.C14.
+From BNP Require Import Base.Prims Model.C14 Corr.C14 Proofs.C14 Proofs.C14_link Gen.C14 Bridge.C14.
 Import ListNotations.
 Open Scope Z_scope.
 
@@ -92,6 +92,78 @@ Theorem C14_codon_table :
 Proof. exact codon_table_thm. Qed.
 Print Assumptions C14_codon_table.
 
+(* ======================= phase 3: the code at /repo HEAD, exact guards, all case classes ======================= *)
+
+(* HEAD (complement table repaired): the full reverse-complement statement, all three encodings, all ten symbols *)
+Theorem C14_revcomp_head :
+  forall ez rows, In ez [0; 1; 2] -> Forall (Forall (fun c => In c (domain ez))) rows ->
+    let out := map (fun r => spec_revcomp (map (canon ez) r)) rows in
+    model_revcomp complements ez rows = Ok out
+    /\ map len out = map len rows
+    /\ model_revcomp2 complements ez rows = Ok (map (map (canon ez)) rows).
+Proof. exact (revcomp_all complements domain grid_head). Qed.
+Print Assumptions C14_revcomp_head.
+
+(* HEAD still calls npstructures' np.where *)
+Theorem C14_head_where : where_rows = where_pinned.
+Proof. exact head_where. Qed.
+Print Assumptions C14_head_where.
+
+(* strand-aware extraction at HEAD, positive part: full symbol domain (lower case included), both routes, every valid
+   interval set that extracts MORE bases than it has intervals *)
+Theorem C14_stranded_head :
+  forall ez, In ez [0; 1; 2] -> forall minus ref ivs,
+    Forall (fun c => In c (domain ez)) ref -> Forall (iv_valid ref) ivs ->
+    len ivs < total_bases ivs ->
+    model_stranded complements where_pinned minus ez ref ivs = Ok (map (spec_stranded (map (canon ez) ref)) ivs).
+Proof. exact stranded_head_ok. Qed.
+Print Assumptions C14_stranded_head.
+(* ... and the guard is exact: on EVERY valid input outside it (intervals >= bases: the remaining known finding) the
+   call raises, it never returns a wrong sequence *)
+Theorem C14_stranded_head_fails :
+  forall ez, In ez [0; 1; 2] -> forall minus ref ivs,
+    Forall (fun c => In c (domain ez)) ref -> Forall (iv_valid ref) ivs ->
+    total_bases ivs <= len ivs ->
+    model_stranded complements where_pinned minus ez ref ivs = Err 5.
+Proof. exact stranded_head_err. Qed.
+Print Assumptions C14_stranded_head_fails.
+
+(* genes.get_transcript_sequences: every list of transcripts (any number of exons each, concatenated in order) on an
+   ACGTN-encoded reference: spliced sequence for '+', reverse complement of the spliced sequence for '-'; raises exactly
+   when there are at least as many transcripts as extracted bases *)
+Theorem C14_transcripts_head :
+  forall ref txs, Forall (fun c => In c dna10) ref -> Forall (tx_valid ref) txs ->
+    (len txs < tx_bases txs ->
+       model_transcripts complements where_pinned ref txs = Ok (map (spec_transcript (map (canon 2) ref)) txs))
+    /\ (tx_bases txs <= len txs -> model_transcripts complements where_pinned ref txs = Err 5).
+Proof. exact (fun ref txs Hr Ht => conj (transcripts_head_ok ref txs Hr Ht) (transcripts_head_err ref txs Hr Ht)). Qed.
+Print Assumptions C14_transcripts_head.
+Theorem C14_transcripts_fixed :
+  forall ref txs, Forall (fun c => In c dna10) ref -> Forall (tx_valid ref) txs ->
+    model_transcripts complements_fixed where_fixed ref txs = Ok (map (spec_transcript (map (canon 2) ref)) txs).
+Proof. exact transcripts_fixed_ok. Qed.
+Print Assumptions C14_transcripts_fixed.
+
+(* translation, decided for EVERY list of byte strings: rows that split into codons over ACGTacgt are translated codon
+   by codon; anything else (N/n or any other symbol; a row length that is not a multiple of three, even when the total
+   length is) raises EncodingError (1) resp. AssertionError (2): no protein is ever returned for it *)
+Theorem C14_translate_total :
+  forall rows, bytes_ok rows ->
+    (tr_wellformed rows = true /\ model_translate rows = Ok (map spec_translate rows))
+    \/ (tr_wellformed rows = false
+        /\ ((model_translate rows = Err 1 /\ exists c, In c (List.concat rows) /\ ~ In c acgt8)
+            \/ (model_translate rows = Err 2 /\ Forall (fun c => In c acgt8) (List.concat rows)
+                /\ exists r, In r rows /\ len r mod 3 <> 0))).
+Proof. exact translate_total. Qed.
+Print Assumptions C14_translate_total.
+
+(* the link for every case class of the correspondence: on a well-formed case (symbols of the encoding, valid
+   intervals / exons outside the known-finding class, byte strings) "the implementation agrees with the model"
+   implies "the implementation satisfies the property" *)
+Theorem C14_link : forall c, case_wf c = true -> model_ok c = true -> prop_ok c = true.
+Proof. exact link_all. Qed.
+Print Assumptions C14_link.
+
 (* Source tie: what translate/gen_c14.py regenerates from /repo on this run (Gen/C14.v) — the `_complements` dict,
    the assignments that fill the ASCII table, the alphabet comprehension, the strand symbol / np.where operand order /
    slice bounds of the three strand-aware sites, the amino-acid string, the TCAG base order, the window size, the
@@ -115,6 +187,8 @@ Theorem C14_source_tie :
         model_stranded keys wh false ez ref ivs
         = model_stranded_site keys wh gen_genomic_where (fun a _ => a) (fun _ b => b) ez ref ivs)
   /\ gen_genes_where = where_site true
+  /\ (forall keys wh ref txs,
+        model_transcripts keys wh ref txs = model_extract keys wh gen_genes_where 2 ref tx_ext tx_strand txs)
   /\ (str gen_amino_acids = amino_acids /\ str gen_codon_alphabet = tcag
       /\ map (gen_kmer_weight (len (str gen_codon_alphabet))) (arange gen_window_size) = convolution
       /\ gen_table_is_code_points = true /\ gen_reshape_is_window_rows = true /\ gen_hash_is_dot = true)
@@ -124,7 +198,7 @@ Theorem C14_source_tie :
                               gen_window_reversed gen_length_check gen_out_length rows).
 Proof.
   exact (conj b_complements (conj b_ascii_table (conj b_new_alphabet (conj b_alpha_values (conj b_dna_flags
-        (conj b_stranded_dna (conj b_stranded_genomic (conj b_genes_where (conj b_translate_tables b_translate))))))))).
+        (conj b_stranded_dna (conj b_stranded_genomic (conj b_genes_where (conj b_transcripts (conj b_translate_tables b_translate)))))))))).
 Qed.
 Print Assumptions C14_source_tie.
 
@@ -141,6 +215,17 @@ Example C14_genetic_code_table :
   /\ forallb (fun cd => mem 1 (map (fun x => if zlist_eqb cd x then 1 else 0) cds)) upper_codons = true
   /\ map spec_aa [str "TAA"; str "TAG"; str "TGA"; str "ATG"; str "tgg"] = [Some 42; Some 42; Some 42; Some 77; Some 87]
   /\ List.length upper_codons = 64%nat /\ List.length all_codons = 512%nat.
+Proof. vm_compute. repeat split; reflexivity. Qed.
+(* phase 3 hypotheses are satisfiable and the executables compute: a two-exon minus-strand transcript, the must-raise
+   classes of translation, and one well-formed case of each class *)
+Example C14_nonvacuous_phase3 :
+  model_transcripts complements where_rows (str "ACGTNAc") [([(0, 3); (3, 6)], 45); ([(6, 7)], 43)] = Ok [str "TNACGT"; str "C"]
+  /\ gen_wf (str "ACGTNAc") [([(0, 3); (3, 6)], 45); ([(6, 7)], 43)] = true
+  /\ model_transcripts complements where_rows (str "ACGTNAc") [([(2, 3)], 45)] = Err 5
+  /\ model_translate [str "ACN"] = Err 1 /\ model_translate [str "ACGTT"; str "A"] = Err 2
+  /\ tr_wellformed [str "ACGTT"; str "A"] = false /\ tr_wellformed [str "ACGtaa"; []] = true
+  /\ rev_wf 0 [str "acgtn"; []] = true /\ str_wf 0 0 (str "ACgtn") [(0, 3, 45); (2, 2, 43)] = true
+  /\ tr_wf [str "ACN"] = true.
 Proof. vm_compute. repeat split; reflexivity. Qed.
 (* the hypotheses of the theorems are met by concrete inputs and the executable model really computes *)
 Example C14_nonvacuous :
